@@ -45,7 +45,7 @@ norm = lambda n: re.sub(r"\.\d+$", "", n)
 new_globals = [w for w in writable if w not in allow and norm(w) not in {norm(a) for a in allow}]
 if new_globals:
     print("NOTE C16: writable library globals not in checks/c16_globals_allow.txt: %s" % " ".join(new_globals))
-evpath = os.path.join(VERIF, "evidence", "C16.json")
+evpath = os.path.join(os.environ.get("VERIF_EVIDENCE_DIR", os.path.join(VERIF, "evidence")), "C16.json")
 for i, a in enumerate(args):
     if a == "--evidence":
         evpath = args[i + 1]
